@@ -169,6 +169,10 @@ def shifted_ym(year, month, years, months):
     return sym.fdiv(total, 12), sym.add(sym.fmod(total, 12), 1)
 
 
+def _is_zero(x):
+    return not sym.is_sym(x) and x == 0
+
+
 def clamp_day(ty, tmo, day):
     return sym.minv(day, spec.dim(ty, tmo))
 
@@ -223,6 +227,10 @@ class _add_duration_base:
 
     @staticmethod
     def _target(dt, u):
+        if _is_zero(u["years"]) and _is_zero(u["months"]):
+            # no calendar shift: the value's own wall clock (its day is valid for its own month: no clamping)
+            w0 = obj_wall(dt)
+            return dt.year, dt.month, sym.add(w0, delta_us(u["weeks"], u["days"], u["hours"], u["minutes"], u["seconds"], u["microseconds"]))
         ty, tmo = shifted_ym(dt.year, dt.month, u["years"], u["months"])
         w = sym.add(base_wall(dt, ty, tmo), delta_us(u["weeks"], u["days"], u["hours"], u["minutes"], u["seconds"], u["microseconds"]))
         return ty, tmo, w
